@@ -222,6 +222,19 @@ func (m *Machine) runUnit(l *Loaded, u *Unit, sampleDir string, rng *rand.Rand) 
 	e := m.ex
 	res.Paths, res.Aborted = e.Paths, e.Aborted
 	res.Obligations = e.Obls
+	for i := range e.Obls {
+		if e.Obls[i].Result == "sat" {
+			// complete the model: inputs the solver never saw are unconstrained on this path
+			if e.Obls[i].Model == nil {
+				e.Obls[i].Model = Model{}
+			}
+			for name, rg := range u.varRanges {
+				if _, ok := e.Obls[i].Model[name]; !ok {
+					e.Obls[i].Model[name] = rg[0]
+				}
+			}
+		}
+	}
 	for _, o := range e.Obls {
 		res.Counts[o.Kind+":"+o.Result]++
 		if o.Result == "unknown" {
